@@ -253,6 +253,23 @@ def describe(w):
         return dict(kind="rdim", f=w[1], e=("mul", A(1), A(2)), shape=1, d=int(w[5]), newh=int(w[2]))
     if k == "outer":
         return dict(kind="assign", t=0, e=("outer", 1, 2))
+    if k == "outx":
+        O = ("outer", 1, 2); f = w[1]
+        if f == "sl":
+            return dict(kind="assign", t=0, e=("mul", C(w[5]), O))
+        if f == "sr":
+            return dict(kind="assign", t=0, e=("mul", O, C(w[5])))
+        if f == "neg":
+            return dict(kind="assign", t=0, e=("neg", O))
+        if f == "al":
+            return dict(kind="assign", t=0, e=("mul", A(3), O))
+        if f == "ar":
+            return dict(kind="assign", t=0, e=("sub", A(3), O))
+        if f in ("cadd", "csub", "cmul"):
+            return dict(kind="assign", t=0, e=(f[1:], ("noalias", A(0)), O), compound=True)
+        if f == "fexp":
+            return dict(kind="assign", t=0, e=("exp", O), float=True)
+        return None
     if k == "spr":
         return dict(kind="assign", t=0, e=("spread", int(w[1]), int(w[4]), 1))
     if k == "spre":
@@ -341,7 +358,7 @@ STMT_KINDS = ["copy", "neg", "bin", "binsl", "binsr", "binal", "binar", "n1", "n
               "spre", "elr", "elrc", "elw", "elc", "elcp", "elx", "fsin", "fsqrt", "fexpm", "fxcopy", "fxbin", "fxsrc", "fxff",
               "fxbcp", "fxbca", "fxcmp", "fxred",
               "mm", "mmsl", "mmsr", "mmal", "mmar", "mmn1", "mmn2", "mmred", "ab", "abn",
-              "ffn", "ffnn", "ffb", "ffbl", "ffbr", "ffbn", "dvx"]
+              "ffn", "ffnn", "ffb", "ffbl", "ffbr", "ffbn", "dvx", "outx"]
 
 
 # statement kinds of drv_arrayad_s5.cpp that C09 emits itself (dvx has a C03 model and oracle since the diag_vector
